@@ -48,6 +48,13 @@ def bases(ctx, tier):
     t10 = {".meta": DIR, ".meta/clip.txt": b"hidden folder", "meta": DIR, "meta/clip.txt": b"visible twin", ".notes": b"hidden file",
            "notes": b"visible twin of the hidden file", "..data": DIR, "..data/x.bin": b"two dots"}
     B["hidden-twins"] = (ops.build(ctx, t10, [c("", ["md5"])], expect=[0]), [])
+    # the same flat history as another tool may have written it (optional items missing, other legal date forms)
+    from mc import foreign
+    if B.get("flat2-format-change", (None,))[0] is not None:
+        for var in ("no-size", "no-ignore", "no-sequencenr", "z-dates", "no-lastmod", "no-hashdate"):
+            ft = foreign.rewrite(B["flat2-format-change"][0], var)
+            if ft != B["flat2-format-change"][0] and foreign.valid(ft):
+                B["foreign-" + var] = (ft, [])
     B["failed-generation"] = (ops.build(ctx, T, [c("", ["md5"]), ["write", "a.txt", FAILED_CONTENT], c("", ["md5"]),
                                                  ["write", "a.txt", T["a.txt"]]], expect=[0, 11]), [])
     B["empty-folder"] = (ops.build(ctx, {}, [c("", ["xxh64"])], expect=[0]), [])
